@@ -154,6 +154,8 @@ def run(ctx):
             ci = calls_to(f, "AhoCorasickBuilder::ascii_case_insensitive")
             bd = calls_to(f, "AhoCorasickBuilder::build")
             ok = len(ci) == 1 and self_field(arg_syms(ci[0])[1], "case_insensitive") and len(bd) == 1 and self_field(arg_syms(bd[0])[1], "patterns")
+            # the configured case sensitivity is applied whatever the other options are
+            ok = ok and not [lab for dd, lab in gates(f.body, ci[0].bb) if lab in (True, False)] and f.body.dominates(ci[0].bb, bd[0].bb)
             ret = strip_sym(Sym(f).local(0))
             ok = ok and ret[0] == "agg" and "inner" in ret[4] and is_param(ret[3][ret[4].index("inner")], 1)
             chk.ob("C13.c", f.path, ok, "automaton = builder.ascii_case_insensitive(self.case_insensitive)...build(&self.patterns); inner recorder stored unchanged" if ok else "FilterLayer::layer does not build the automaton from self.patterns with self.case_insensitive", f.loc())
